@@ -24,6 +24,28 @@ func init() {
 		},
 	})
 	register(&Property{
+		ID: "C53",
+		Explanation: "Decides the guards of the comparison, not the listed set for given trees (the plan listed this property as not applicable; re-examination found that each marker is carried by a guard): (dual-merge) by specialised evaluation of data.DualTreeIterator's loop with both sides non-empty: when tree 1's next name is smaller only tree 1's node is handed out, when tree 2's is smaller only tree 2's, for equal names both together; an iterator is advanced only when its node is handed out and every handed-out node's iterator is advanced before the pair is yielded; (diff-markers) Comparer.diffTree prints '-' only with node2 == nil and node1 != nil, '+' only with node1 == nil and node2 != nil, a modified pair only when both are present and the modifier string is non-empty; the letter T is appended only on the edge where the types differ, M only for two files whose content lists are not DeepEqual; the recursion into subdirectories is reached only when the two subtree IDs differ and compares node1.Subtree with node2.Subtree, and collectDir, which handles identical subtrees, reports nothing. Not decided: that both trees are sorted by name (C41), the statistics, and metadata-only changes (U).",
+		Assumptions: commonAssumptions,
+		Technique:   "static analysis: specialised path evaluation of the merge loop with nil-ness of the yielded sides + CFG edge cuts per marker (go/ssa)",
+		Run: func(c *eng.Ctx) {
+			ruleDualMerge(c)
+			ruleDiffMarkers(c)
+		},
+		Controls: []Control{
+			{Name: "merge-keeps-larger-name", File: "internal/data/tree.go",
+				Old: "				if node1.Name < node2.Name {\n					node2 = nil\n				} else if node1.Name > node2.Name {\n					node1 = nil\n				}", New: "				if node1.Name < node2.Name {\n					node1 = nil\n				} else if node1.Name > node2.Name {\n					node2 = nil\n				}", Rule: "dual-merge"},
+			{Name: "both-sides-always-advanced", File: "internal/data/tree.go",
+				Old: "			if node2 != nil {\n				if err = iter2.Next(); err != nil {\n					break\n				}\n			}", New: "			if err = iter2.Next(); err != nil {\n				break\n			}", Rule: "dual-merge"},
+			{Name: "modified-marker-for-any-type", File: "cmd/restic/cmd_diff.go",
+				Old: "			if node1.Type == data.NodeTypeFile &&\n				node2.Type == data.NodeTypeFile &&\n				!reflect.DeepEqual(node1.Content, node2.Content) {", New: "			if !reflect.DeepEqual(node1.Content, node2.Content) {", Rule: "diff-markers"},
+			{Name: "identical-subtrees-descended", File: "cmd/restic/cmd_diff.go",
+				Old: "				if (*node1.Subtree).Equal(*node2.Subtree) {\n					err = c.collectDir(ctx, stats.BlobsCommon, *node1.Subtree)\n				} else {\n					err = c.diffTree(ctx, stats, name, *node1.Subtree, *node2.Subtree)\n				}", New: "				err = c.diffTree(ctx, stats, name, *node1.Subtree, *node2.Subtree)", Rule: "diff-markers"},
+			{Name: "unchanged-pairs-printed", File: "cmd/restic/cmd_diff.go",
+				Old: "			if mod != \"\" {\n				c.printChange(NewChange(name, mod))\n			}", New: "			c.printChange(NewChange(name, mod))", Rule: "diff-markers"},
+		},
+	})
+	register(&Property{
 		ID: "C57",
 		Explanation: "Decides the structural form of 'unique match or error' in restic.Find (the plan listed this property as not applicable; re-examination showed that the clause is carried by guards, not by a frozen source fragment): (unique-prefix-match) the listing callback records an ID only on the edge where the prefix equals id.String()[:len(prefix)] and only while no match is recorded yet; with a match already recorded, a further ID with the prefix makes the callback return a non-nil error; Find returns a nil error only if the listing returned nil and a match is recorded, and then returns that recorded ID. Not decided: that the listing enumerates every file of the type (backend contract) and case/length handling of the prefix beyond the comparison shown.",
 		Assumptions: commonAssumptions,
